@@ -465,8 +465,6 @@ def is_bad(op, L, pre_rec=None):
     touch a site outside a recorded pair range: there the CALLER has to start a
     fresh record, which the harness does right after (kind 'fresh')."""
     if op["kind"] == "scale":
-        if op["api"] == "site_normalize" and op.get("_flag", "FNone") != "FNone":
-            return True  # Tensor.normalize_ keeps the flag of the tensor it rescales (open finding)
         if isinstance(pre_rec, tuple):
             a, b = pre_rec
             return any(not (a <= x <= b) for x in op["_sites"])
@@ -1267,7 +1265,7 @@ def findings_stream(ctx):
     for i, k in ((3, 2), (2, 1), (0, 1), (5, 1), (4, 3)):
         scripts.append([{"kind": "compress_site", "i": i, "canonize": True, "opts": {"max_bond": k, "cutoff": 0.0}, "seed": 6}])
         specs.append(dict(wide))
-    # Tensor.normalize_ on a flagged site (open finding: the flag survives the rescale)
+    # Tensor.normalize_ on a flagged site (before 7d04d5b5 the flag survived the rescale)
     for site in (1, 4):
         scripts.append([{"kind": "scale", "api": "site_normalize", "c": 1.0, "spread": 1, "site": site, "insert": None, "seed": 7},
                         {"kind": "fresh", "record": "calc", "seed": 0},
